@@ -35,7 +35,7 @@ def _run(shard):
     signal.alarm(limit)
     try:
         rep = _MOD.run_shard(shard, _TIER, _SEED)
-        return ("ok", shard, rep)
+        return ("ok", shard, rep.compact())
     except BaseException as e:  # harness failure, reported as broken
         return ("err", shard, "".join(traceback.format_exception(type(e), e, e.__traceback__)))
     finally:
